@@ -2,8 +2,8 @@
 import re
 import e2
 
-TIE = ["Nsq.Tie.Chan", "Nsq.Tie.ChanFunc"]
-PROPS = ["Nsq.Props.C13"]
+TIE = ["Nsq.Tie.Chan", "Nsq.Tie.ChanFunc", "Nsq.Tie.PubCounts"]
+PROPS = ["Nsq.Props.C13", "Nsq.Props.C13Pub", "Nsq.Props.C13Full", "Nsq.Props.C13Windows", "Nsq.Props.C13Bytes", "Nsq.Props.C13Nsqd"]
 
 
 def run(ctx):
@@ -21,10 +21,23 @@ def run(ctx):
         "quiescent moments only (the property says so): GetStats reads the counters one after the other",
         "channel backend writes succeed (go-diskqueue Put returns nil): a failing write in REQ / timeout / deferred scan loses the message "
         "and, on the REQ path, leaves the consumer's in_flight_count one too high — open finding chan-backend-write-fails (audit B3), "
-        "replayed by TestVerifE2PutFail with an injected write error",
+        "replayed by TestVerifE2PutFail with an injected write error; Lean: Model.ChanFault (putFail outcomes), "
+        "Props.C13Full.C13_full_false_put_fault / put_fault_skews_client",
+        "the property's formula AS WRITTEN (no sampled-out / ephemeral-drop term) is Props.C13Full.C13_full_partial: durable channel, no "
+        "sampling drop in the run; it is refuted with a sampling consumer (C13_full_false_sampling) and on a full #ephemeral queue "
+        "(C13_full_false_ephemeral) — channel_conservation carries the two extra terms",
     ]
+    ctx.assumptions += [
+        "producers (audit B26): pub_counts of one connection; the Go map c.pubCounts is one iteration order of an association list with "
+        "distinct keys and every theorem of Props.C13Pub is stated for every order; uint64 counts read as Nat (no 2^64 wrap); the "
+        "unfiltered answer is complete only for the F49 loop shape (pub_counts_complete_fixed / pub_counts_full_fixed) — the loop with "
+        "the unconditional break is refuted (pub_counts_full_false_with_break) and replayed by TestVerifE2PubCounts "
+        "(finding stats-pubcounts-break while the tree has that shape)",
+    ]
+    ctx.gen("e2_pubcounts")     # pub_counts loop of clientV2.Stats + PublishedMessage (Nsq.Tie.PubCounts)
     res, broken = e2.run_property(ctx, "C13", TIE, PROPS)
     run_putfail(ctx, broken)
+    run_pubcounts(ctx, broken)
     if (ctx.broken_ties or broken) and not ctx.violations:
         ctx.broken_without_input(ctx.broken_ties + broken,
                                  "search: %d generated op lines with stats comparison found no counter that drifts"
@@ -50,3 +63,28 @@ def run_putfail(ctx, broken):
         if re.search(r"reproduced=true", l):
             ctx.violation("chan-backend-write-fails", l[:400],
                           open(e2.os.path.join(e2.ROOT, "corpus", "C13", "known", "chan_backend_write_fails.ops")).read() + l + "\n")
+
+
+def run_pubcounts(ctx, broken):
+    """audit B26 / fix F49 (finding stats-pubcounts-break): producers publish to several topics over TCP (PUB / MPUB / DPUB), the real
+    /stats is read unfiltered, per topic and as text; oracle on the implementation's output. Every run."""
+    binp = ctx.go_test_binary("nsqd", ["e2/e2_pubcounts_test.go"], "e2pc")
+    if not binp:
+        ctx.log("the pub-counts leg does not compile against the current tree")
+        broken.append("pub-counts leg does not compile")
+        return
+    rc, out = ctx.run_cmd([binp, "-test.run", "^TestVerifE2PubCounts$", "-test.count=1", "-test.timeout=120s"],
+                          timeout=150, env={"VERIF_SEED": ctx.seed, "VERIF_OUT": ctx.work})
+    lines = [l for l in out.splitlines() if l.startswith("PUBCOUNTS ")]
+    ctx.corr["pubcounts_replay"] = [l[:600] for l in out.splitlines() if l.startswith("PUBCOUNTS")]
+    if len(lines) < 2 or rc != 0:
+        ctx.log("TestVerifE2PubCounts did not complete (rc=%s):\n%s" % (rc, out[-1500:]))
+        broken.append("pub-counts leg exit %s" % rc)
+    script = open(e2.os.path.join(e2.ROOT, "corpus", "C13", "known", "pub_counts_break.ops")).read()
+    for l in lines:
+        ctx.count_case(l, nontrivial="," in l.split("expected=", 1)[-1].split(" ", 1)[0])
+        # key: the known shape (a strict subset of the topics, every listed count right) or anything else
+        if re.search(r"\bwrong=true\b", l):
+            ctx.violation("stats-pubcounts-wrong", l[:600], script + "# VERIF_SEED=%s\n%s\n" % (ctx.seed, l))
+        if re.search(r"\breproduced=true\b", l):
+            ctx.violation("stats-pubcounts-break", l[:600], script + "# VERIF_SEED=%s\n%s\n" % (ctx.seed, l))
